@@ -1,4 +1,9 @@
-package c19
+package c07
+
+// Fifth generator: a Client whose Dial / Enroll calls race Client.Stop. Every duplicated
+// descriptor the client created for an enrolled connection is closed exactly once - by the
+// loop, or by the call that gives up - whichever side of the race wins: the descriptor table
+// returns to its state and no close(2) of the framework hits a number that is not open.
 
 import (
 	"strings"
@@ -10,25 +15,25 @@ import (
 	"github.com/panjf2000/gnet/v2/verifx/vstat"
 )
 
-func TestC19Client(t *testing.T) {
-	st := vstat.New("C19.client_api")
+func TestC07ClientStop(t *testing.T) {
+	st := vstat.New("C07.client_stop")
 	defer st.Flush()
 	rapid.Check(t, func(t *rapid.T) {
 		var cs clix.Case
 		cs.Loops = rapid.IntRange(1, 3).Draw(t, "loops")
 		cs.ET = rapid.Bool().Draw(t, "et")
 		kind := rapid.SampledFrom(clix.Kinds)
-		cs.Before = rapid.SliceOfN(kind, 0, 6).Draw(t, "running")
-		ng := rapid.IntRange(0, 3).Draw(t, "racers")
+		cs.Before = rapid.SliceOfN(kind, 0, 8).Draw(t, "running")
+		ng := rapid.IntRange(1, 4).Draw(t, "racers")
 		for i := 0; i < ng; i++ {
 			cs.Racing = append(cs.Racing, rapid.SliceOfN(kind, 1, 4).Draw(t, "racing"))
 		}
 		cs.StopGap = rapid.SampledFrom([]int{0, 0, 50, 300, 1500}).Draw(t, "stopGapUs")
-		cs.After = rapid.SliceOfN(kind, 1, 3).Draw(t, "after")
+		cs.After = rapid.SliceOfN(kind, 0, 2).Draw(t, "after")
 		if ng > 0 && rapid.IntRange(0, 2).Draw(t, "busyLoop") == 0 {
 			cs.BusyMs = rapid.SampledFrom([]int{100, 700, 1200}).Draw(t, "busyMs") // 500 ms is the interval at which waiting callers look at the engine's state
 		}
-		fails, infra, okN, errN := clix.Run(cs, false)
+		fails, infra, okN, errN := clix.Run(cs, true)
 		if infra != "" {
 			t.Fatalf("VERIF-INFRA %s\n%s", infra, cs)
 		}
@@ -38,12 +43,14 @@ func TestC19Client(t *testing.T) {
 			}
 		}
 		st.Eval()
-		nt := okN > 0 && errN > 0
+		nt := errN > 0
 		if nt {
 			st.NonTrivial(vstat.Hash(cs.String()))
+			st.Label("registrations_given_up_because_of_the_stop")
+		}
+		if okN > 0 && errN > 0 {
 			st.Label("calls_racing_stop_some_served_some_refused")
 		}
-		st.LabelN("calls_after_stop", int64(len(cs.After)))
 		if st.WantSample(nt) {
 			st.Sample(nt, cs.String())
 		}
